@@ -1549,6 +1549,22 @@ def check_C20(ctx):
         ok = m is not None and all(a in ALLOWED_AXIOMS for a in axs)
         ctx.oblige(f"generated obligation Cgreen.Gen.Growth.{thm} (growth arithmetic regenerated from /repo's sources)", ok, "" if ok else gres.stdout[-500:])
     ctx.coverage["growth_sites_translated"] = sorted({t.rsplit("_", 3)[0] for t in gthms})
+    # ---- second translator: the loops that read a stream into a buffer they enlarge (libxml2 reporter: a test's results;
+    # discoverer: a line of the symbol listing): every read inside the allocation, no wrap-around, progress, room for the terminator ----
+    import readloops as rl
+    rtext, rthms, rproblems = rl.render()
+    rpath = os.path.join(ctx.work, "GenReadLoops.lean")
+    open(rpath, "w").write(rtext)
+    with LakeLock():
+        rres = sh(["lake", "env", "lean", rpath], cwd=LEAN)
+    for site, why in rproblems:
+        ctx.oblige(f"read loop {site}: arithmetic extracted from the source", False, why)
+    for thm in rthms:
+        m = re.search(r"'Cgreen\.Gen\.ReadLoops\.%s' (does not depend on any axioms|depends on axioms: \[([^\]]*)\])" % thm, rres.stdout)
+        axs = [a.strip() for a in (m.group(2) or "").split(",") if a.strip()] if m else ["?"]
+        ok = m is not None and all(a in ALLOWED_AXIOMS for a in axs)
+        ctx.oblige(f"generated obligation Cgreen.Gen.ReadLoops.{thm} (read-loop arithmetic regenerated from /repo's sources)", ok, "" if ok else rres.stdout[-600:])
+    ctx.coverage["read_loops_translated"] = sorted({t.rsplit("_", 1)[0] if not re.search(r"_after_\d+$", t) else re.sub(r"_after_\d+$", "", t) for t in rthms})
     ctx.coverage["generated_sha"] = hashlib.sha256(gtext.encode()).hexdigest()[:16]
     impl = build_impl(ctx, asan=True)
     exe = compile_harness(ctx, impl, "vec_ops", ["vec_ops.c"])
